@@ -996,8 +996,9 @@ class Fxp():
             # rounding and overflowing
             new_val_real = self._round(new_val_real * conv_factor, method=self.config.rounding)
             new_val_imag = self._round(new_val_imag * conv_factor, method=self.config.rounding)
-            new_val_real = self._overflow_action(new_val_real, val_min, val_max)
-            new_val_imag = self._overflow_action(new_val_imag, val_min, val_max)
+            # (both components at once: one write raises each flag and runs each callback once)
+            _both = self._overflow_action(np.array([new_val_real, new_val_imag]), val_min, val_max)
+            new_val_real, new_val_imag = np.asarray(_both[0]), np.asarray(_both[1])
 
             # convert to array of val_dtype
             new_val_real = new_val_real.astype(val_dtype)
